@@ -29,6 +29,8 @@ impl Loop {
 impl Exec for Loop {
     fn exec(&self, interpreter: &mut Interpreter) -> ExecResult {
         loop {
+            #[cfg(feature = "verif")]
+            crate::verif::tick();
             match self.0.exec(interpreter) {
                 Ok(_) | Err(ExecStop::Continue) => (),
                 Err(ExecStop::Break) => break,
